@@ -148,7 +148,7 @@ def write_matrix_file(path, x, P, f):
 # ------------------------------------------------------------------ strategies
 @st.composite
 def matrices(draw, size=None):
-    size = size or draw(st.sampled_from(['tiny', 'small', 'small', 'small', 'big', 'big', 'big', 'wide', 'wide', 'tall']))
+    size = size or draw(st.sampled_from(['tiny', 'small', 'small', 'small', 'big', 'big', 'big', 'wide', 'wide'] * 2 + ['tall']))
     if size == 'tiny':
         n, g = draw(st.integers(1, 4)), draw(st.integers(1, 4))
     elif size == 'small':
@@ -160,7 +160,7 @@ def matrices(draw, size=None):
     elif size == 'tall':
         # more rows than a one-byte counter holds; sometimes also more stored entries than a two-byte counter (65 535)
         n = draw(st.integers(257, 300))
-        g = draw(st.sampled_from([2, 5, 9, 240]))
+        g = draw(st.sampled_from([2, 5, 9, 2, 5, 9, 240]))
     else:
         n, g = draw(st.integers(8, 40)), draw(st.integers(6, 30))
     fam = draw(st.sampled_from(['random'] * 6 + ['empty', 'single', 'full']))
@@ -194,7 +194,7 @@ def file_layouts(draw):
 def row_chunk_sizes(draw, n):
     kind = draw(st.sampled_from(['any', 'any', 'any', 'one', 'n', 'divisor', 'beyond']))
     if n > 100 and kind in ('any', 'one', 'divisor'):
-        return draw(st.sampled_from([1, 7, 100, 128, 255, 256, 257, n - 1]))
+        return draw(st.sampled_from([7, 100, 128, 255, 256, 257, n - 1]))
     if kind == 'one':
         return 1
     if kind == 'n':
@@ -324,5 +324,8 @@ def enumerated(shapes):
                                          'idx64': enc != 'dense' and r(5, 4) == 0},
                                 'row_chunk_sizes': list(range(1, n + 2)),
                                 'max_gb': [1e-9, 10][r(6, 2)], 'tmp_dir': r(7, 3) != 0, 'keep_open': r(8, 2) == 0,
-                                'ops': ops, 'order': ['interleaved', 'before', 'after'][r(9, 3)]})
+                                'ops': ops, 'order': ['interleaved', 'before', 'after'][r(9, 3)],
+                                # the history checks (decoy file of the same name, reading resumed after next()) on a
+                                # rotating part of the enumerated cases; generated cases always carry them
+                                'decoy': r(10, 4) == 0, 'resume': 'first' if r(11, 3) == 0 else 'none'})
     return out
